@@ -227,6 +227,115 @@ theorem arith_matches (cp : Bool) (op : Op) (hop : op ∈ intOps) (da db : Nat) 
         rw [Int.fdiv_eq_tdiv_of_nonneg hx0 hy0']
 
 
+
+/-! ## Expressions: dispatch is history-free, so agreement with numpy composes
+
+An expression over Vars is built by successive operator applications; every application dispatches on
+the element types of its two operands only (a sub-expression's result is just a Var of its result
+type) — there is no other state in the model. That the real dispatcher has none either is what the
+*history* correspondence checks on every run (sequences of applications re-using the same Vars and
+intermediate results, with different casts needed per use, across nested and successive blocks). -/
+
+/-- promoted integer types stay integer dtypes (needed to iterate `arith_matches`) -/
+theorem int_closed :
+    ∀ da ∈ ints, ∀ db ∈ ints,
+      (match info.rt2 da db with
+       | some t => !info.integer t || ints.contains t
+       | none => true) = true := by
+  decide +kernel
+
+inductive Expr
+  | var (i : Nat)
+  | bin (op : Op) (l r : Expr)
+
+/-- every operator of the expression is one of `+ - * //` -/
+def Expr.intOnly : Expr → Bool
+  | .var _ => true
+  | .bin op l r => intOps.contains op && l.intOnly && r.intOnly
+
+/-- numpy: element type and value of the expression (`env i` = dtype and value of Var `i`); `none`
+    outside the integer fragment, on division by zero and on `INT_MIN // -1` -/
+def npExpr (env : Nat → Nat × Int) : Expr → Option (Nat × Int)
+  | .var i => some (env i)
+  | .bin op l r =>
+      match npExpr env l, npExpr env r with
+      | some (dl, x), some (dr, y) =>
+          (match info.rt2 dl dr with
+           | some t =>
+               if !info.integer t then none
+               else if op == .floordiv && (y == 0 || (x == intMin t && y == -1)) then none
+               else some (t, npInt info op t x y)
+           | none => none)
+      | _, _ => none
+
+/-- spox: every application is dispatched on the operands' element types alone, and the emitted
+    operators are evaluated by ONNX's integer semantics on the operands' values -/
+def spoxExpr (cp : Bool) (env : Nat → Nat × Int) : Expr → Option (Nat × Int)
+  | .var i => some (env i)
+  | .bin op l r =>
+      match spoxExpr cp env l, spoxExpr cp env r with
+      | some (dl, x), some (dr, y) =>
+          (match dispatch info (some (true, cp)) op (.var dl) (.var dr) with
+           | .ok (tree, _) => eval info (.var dl) (.var dr) x y tree
+           | .error _ => none)
+      | _, _ => none
+
+/-- **Agreement with numpy composes over whole expressions**: for every expression built from
+    `+ - * //` over integer Vars (any dtypes, any values they can hold), wherever numpy computes an
+    integer result the graph spox emits computes the same element type and the same value — every
+    intermediate result included (the statement is inductive). -/
+theorem expr_matches (cp : Bool) (env : Nat → Nat × Int)
+    (henv : ∀ i, (env i).1 ∈ ints ∧ inRange info (env i).1 (env i).2 = true) :
+    ∀ (e : Expr), e.intOnly = true → ∀ t v, npExpr env e = some (t, v) →
+      t ∈ ints ∧ inRange info t v = true ∧ spoxExpr cp env e = some (t, v)
+  | .var i, _, t, v, h => by
+    simp only [npExpr, Option.some.injEq] at h
+    have := henv i
+    rw [h] at this
+    exact ⟨this.1, this.2, by simp [spoxExpr, h]⟩
+  | .bin op l r, hio, t, v, h => by
+    simp only [Expr.intOnly, Bool.and_eq_true, List.contains_iff_mem] at hio
+    obtain ⟨⟨hop, hl⟩, hr⟩ := hio
+    simp only [npExpr] at h
+    cases hnl : npExpr env l with
+    | none => simp [hnl] at h
+    | some pl =>
+      cases hnr : npExpr env r with
+      | none => simp [hnl, hnr] at h
+      | some pr =>
+        obtain ⟨dl, x⟩ := pl
+        obtain ⟨dr, y⟩ := pr
+        obtain ⟨hdl, hxr, hsl⟩ := expr_matches cp env henv l hl dl x hnl
+        obtain ⟨hdr, hyr, hsr⟩ := expr_matches cp env henv r hr dr y hnr
+        simp only [hnl, hnr] at h
+        cases hrt : info.rt2 dl dr with
+        | none => simp [hrt] at h
+        | some t' =>
+          simp only [hrt] at h
+          by_cases hint : info.integer t' = true
+          · simp only [hint, Bool.not_true, Bool.false_eq_true, if_false] at h
+            by_cases hdz : (op == .floordiv && (y == 0 || (x == intMin t' && y == -1))) = true
+            · simp [hdz] at h
+            · simp only [hdz, Bool.false_eq_true, if_false, Option.some.injEq, Prod.mk.injEq] at h
+              obtain ⟨rfl, rfl⟩ := h
+              have hclosed := int_closed dl hdl dr hdr
+              simp only [hrt, hint, Bool.not_true, Bool.false_or, List.contains_iff_mem] at hclosed
+              have hdiv : op = .floordiv → y ≠ 0 ∧ ¬(x = intMin t' ∧ y = -1) := by
+                intro ho
+                subst ho
+                simp only [beq_self_eq_true, Bool.true_and, Bool.or_eq_true, beq_iff_eq, Bool.and_eq_true,
+                  not_or, not_and] at hdz
+                exact ⟨hdz.1, fun hh => hdz.2 hh.1 hh.2⟩
+              obtain ⟨tree, hd, he⟩ := arith_matches cp op hop dl dr hdl hdr t' hrt hint x y hxr hyr hdiv
+              have hbits : 1 ≤ info.bits t' := by
+                have : ∀ t ∈ ints, 1 ≤ info.bits t := by decide +kernel
+                exact this t' hclosed
+              refine ⟨hclosed, ?_, ?_⟩
+              · simp only [intOps, List.mem_cons, List.not_mem_nil, or_false] at hop
+                rcases hop with rfl | rfl | rfl | rfl <;> exact wrap_inRange info t' hbits _
+              · simp only [spoxExpr, hsl, hsr, hd, he]
+          · simp [hint] at h
+
 /-- unary minus on signed integer Vars: numpy's value for every operand value (wrap-around at INT_MIN) -/
 theorem neg_matches (s : Bool × Bool) (d : Nat) (hd : d ∈ [0, 1, 2, 3]) (x : Int) :
     dispatch info (some s) .neg (.var d) .other = .ok (.un .Neg (.arg 0), d) ∧
@@ -285,6 +394,10 @@ example : ∃ tree, dispatch info (some (true, true)) .floordiv (.var 2) (.var 3
   obtain ⟨tree, h1, h2⟩ := arith_matches true .floordiv (by simp [intOps]) 2 3 (by simp [ints]) (by simp [ints]) 3
     (by decide +kernel) (by decide +kernel) (-7) 2 (by decide +kernel) (by decide +kernel) (fun _ => ⟨by decide, by decide⟩)
   exact ⟨tree, h1, by rw [h2]; decide +kernel⟩
+-- (x0 + x1) // x2 with x0 : int8 = -7, x1 : int32 = 2, x2 : int64 = 2:  numpy int64 -3, and so does the emitted graph
+example : npExpr (fun i => [(0, -7), (2, 2), (3, 2)].getD i (0, 0)) (.bin .floordiv (.bin .add (.var 0) (.var 1)) (.var 2)) = some (3, -3) ∧
+    spoxExpr true (fun i => [(0, -7), (2, 2), (3, 2)].getD i (0, 0)) (.bin .floordiv (.bin .add (.var 0) (.var 1)) (.var 2)) = some (3, -3) := by
+  decide +kernel
 example : resultDtype (dispatch info (some (true, true)) .truediv (.var 2) (.var 2)) = some f64 := by decide +kernel
 example : resultDtype (dispatch info (some (true, true)) .add (.var 7) (.var 3)) = some f64 := by decide +kernel
 example : isErr (dispatch info (some (false, true)) .add (.var 2) .pyFloat) .typeError = true := by decide +kernel
